@@ -697,3 +697,9 @@ func (u *Unit) errEdges() map[*flow.Block]bool {
 	}
 	return out
 }
+
+// ErrTested: the error result of the call is bound and some branch tests it for nil.
+func (u *Unit) ErrTested(s *flow.Site) (bool, string) {
+	_, msg := u.successGates(s, NilErr, nil)
+	return msg == "", msg
+}
